@@ -108,6 +108,20 @@ async def drive(c, tier, scripts, rnd):
             batches.append(ev)
             c.add("random_ending_flows", n)
             c.add("link_cuts", sum(1 for e in ev if e["ev"] == "Fault"))
+            # Released without the survivor's help: one side closes for good, the other keeps its connection open and silent
+            n = 6 if quick else 16
+            spec = [(relayrun.hold_script(rnd, big), "ok", KINDS[(i + ci) % 3], 1 << 16) for i in range(n)]
+            ev = await relayrun.run_batch(dep, spec, vlib.seed() * 1000 + 700 + ci, fid0=2000, mbox=mbox, end_cap=end_cap,
+                                          settle_cap=12.0 if not quic else 45.0)
+            batches.append(ev)
+            c.add("held_flows", n)
+            # the end comes while the closing side's data is still backed up behind a slow reader
+            if not quick or ci < 4:
+                spec = [(relayrun.pressure_script(rnd), "ok", KINDS[(i + ci) % 3], 1 << 16) for i in range(2 if quick else 4)]
+                ev = await relayrun.run_batch(dep, spec, vlib.seed() * 1000 + 800 + ci, fid0=3000, mbox=mbox, end_cap=max(end_cap, 20.0),
+                                              settle_cap=12.0 if not quic else 45.0)
+                batches.append(ev)
+                c.add("pressure_flows", len(spec))
         finally:
             if dep:
                 dep.stop()
@@ -161,6 +175,7 @@ def run(tier):
                 ends[k] = ends.get(k, 0) + 1
     c.cov["end_events_observed"] = ends
     c.cov["batches_settled_at_idle_baseline"] = sum(1 for b in batches if any(e["ev"] == "Settled" for e in b))
+    c.cov["batches_held_at_idle_baseline"] = sum(1 for b in batches if any(e["ev"] == "Held" for e in b))
     cutseg = [s for b in batches for s in relayrun.split_flows(b) if any(e["ev"] == "Fault" for e in s)]
     c.sample({"flow_trace_with_link_cut": cutseg[0][:16]} if cutseg else {"flow_trace": relayrun.split_flows(batches[0])[0][:14]})
     self_test(c, batches)
